@@ -32,6 +32,9 @@ type c15Step struct {
 	Op    string `json:"op"` // ingest, merge
 	Rows  int    `json:"rows,omitempty"`
 	Parts int    `json:"parts,omitempty"`
+	// Group: partitions of different groups are disjoint, so files of different
+	// groups have no mergeable partner and one Merge forms several merge groups
+	Group int `json:"group,omitempty"`
 	// one-shot store failure injected (through the tracing wrapper) during this step
 	FailKind string `json:"fail_kind,omitempty"`
 	FailN    int    `json:"fail_n,omitempty"`
@@ -52,16 +55,36 @@ func genC15() *rapid.Generator[c15Case] {
 				st = c15Step{Op: "merge"}
 				if chance(t, "failmerge", 50) {
 					st.FailKind = pick(t, "mfk", []string{"Write", "Close", "CloseAfter", "Update", "OpenFile", "Read", "Tombstone", "CreateFile", "CloseAfter"})
-					st.FailN = pick(t, "mfn", []int{0, 0, 0, 1, 2, 3})
+					st.FailN = pick(t, "mfn", []int{0, 0, 1, 1, 2, 3, 5})
 				}
 			} else {
-				st = c15Step{Op: "ingest", Rows: rapid.IntRange(1, 4).Draw(t, "rows"), Parts: pick(t, "parts", []int{1, 1, 2, 3})}
+				st = c15Step{Op: "ingest", Rows: rapid.IntRange(1, 4).Draw(t, "rows"), Parts: pick(t, "parts", []int{1, 1, 2, 3}), Group: pick(t, "group", []int{0, 0, 1, 2})}
 				if chance(t, "failflush", 25) {
 					st.FailKind = pick(t, "ffk", []string{"Write", "Close", "CloseAfter", "Update", "CreateFile", "Tombstone"})
 					st.FailN = rapid.IntRange(0, 2).Draw(t, "ffn")
 				}
 			}
 			c.Steps = append(c.Steps, st)
+		}
+		if chance(t, "multigroup", 35) {
+			// several merge groups in one Merge (files with disjoint partitions),
+			// and the Merge fails in its second or a later group
+			c.Steps = nil
+			ng := rapid.IntRange(2, 3).Draw(t, "ngroups")
+			for g := 0; g < ng; g++ {
+				for i := rapid.IntRange(2, 3).Draw(t, "gfiles"); i > 0; i-- {
+					c.Steps = append(c.Steps, c15Step{Op: "ingest", Rows: rapid.IntRange(1, 3).Draw(t, "grows"), Parts: pick(t, "gparts", []int{1, 2}), Group: g})
+				}
+			}
+			m := c15Step{Op: "merge"}
+			if chance(t, "mgfail", 75) {
+				m.FailKind = pick(t, "mgfk", []string{"CreateFile", "Write", "Close", "CloseAfter", "OpenFile", "Read"})
+				m.FailN = pick(t, "mgfn", []int{1, 1, 2, 3, 4, 6})
+			}
+			c.Steps = append(c.Steps, m)
+			if chance(t, "mgmore", 50) {
+				c.Steps = append(c.Steps, c15Step{Op: "ingest", Rows: 2, Parts: 1, Group: 0}, c15Step{Op: "merge"})
+			}
 		}
 		return c
 	})
@@ -467,7 +490,7 @@ func runC15(c c15Case) *Violation {
 			var ids []int
 			for i := 0; i < st.Rows; i++ {
 				next++
-				rows = append(rows, map[string]any{"id": next, "p": fmt.Sprintf("p%d", next%maxInt(st.Parts, 1)), "msg": fmt.Sprintf("row %d of step %d", next, si)})
+				rows = append(rows, map[string]any{"id": next, "p": fmt.Sprintf("g%dp%d", st.Group, next%maxInt(st.Parts, 1)), "msg": fmt.Sprintf("row %d of step %d", next, si)})
 				ids = append(ids, next)
 			}
 			r.mu.Lock()
